@@ -3,6 +3,7 @@
 //!  * every typed value is `u32`
 //!  * names are distinct across the levels of one grammar
 use bpaf::*;
+use std::ffi::OsString;
 
 // ---------------------------------------------------------------------------------------------
 // flat grammars of named items (C01, C03, C05, C06, C10, C20)
@@ -500,6 +501,61 @@ pub fn k6() -> OptionParser<(Vec<(u32, u32)>, bool)> {
     construct!(shapes, s).to_options()
 }
 
+fn gh_run() -> OptionParser<bool> {
+    let d = short('d').long("dry-run").help("do nothing").switch();
+    construct!(d).to_options().descr("run it")
+}
+
+/// a `group_help` section that starts with a flag and also holds a command
+pub fn gh() -> OptionParser<(bool, bool)> {
+    let v = short('v').long("verbose").help("be loud").switch();
+    let run = gh_run().command("run").help("run it");
+    construct!(v, run).group_help("Main operation").to_options()
+}
+
+#[derive(Debug, Clone, PartialEq)]
+pub enum In3 {
+    Verb(usize),
+    File(OsString),
+}
+
+/// a choice whose first branch always succeeds (counted flag) and whose second takes any word
+pub fn f3() -> OptionParser<In3> {
+    let v = short('v').long("verbose").req_flag(()).count().map(In3::Verb);
+    let f = positional::<OsString>("FILE").map(In3::File);
+    construct!([v, f]).to_options()
+}
+
+/// g4's grammar built from the less common combinators: boxed, collect, group_help, custom defaults,
+/// hide_usage, pure_with, header / footer / max_width (and `complete` where the feature exists)
+pub fn x1() -> OptionParser<(bool, Vec<u32>, u32, u32)> {
+    let a = short('a').long("alpha").help("alpha").switch().boxed();
+    let d = short('d').long("delta").argument::<u32>("D");
+    #[cfg(feature = "full")]
+    let d = d.complete(|_| vec![("1", None), ("2", Some("two"))]);
+    let d = d.collect::<Vec<u32>>().group_help("numbers");
+    let f = short('f').long("fall").argument::<u32>("F").fallback(1).hide_usage();
+    let p = pure_with(|| Ok::<u32, String>(7));
+    construct!(a, d, f, p).to_options().header("zoo header").footer("zoo footer").max_width(72)
+}
+
+/// everything that is not the switch goes to `any(..).many()`
+pub fn x2() -> OptionParser<(bool, Vec<OsString>)> {
+    let v = short('v').long("verbose").switch();
+    let rest = any::<OsString, _, _>("REST", Some).many();
+    construct!(v, rest).to_options()
+}
+
+/// a choice that ends in `fail`
+pub fn x4() -> OptionParser<(u32, bool)> {
+    let a = short('a').long("alpha").req_flag(1u32);
+    let b = short('b').long("beta").req_flag(2u32);
+    let f = fail("pick --alpha or --beta");
+    let c = construct!([a, b, f]);
+    let s = short('s').long("sw").switch();
+    construct!(c, s).to_options()
+}
+
 /// switch declared before a repeated argument (the switch's consumption precedes the loop)
 pub fn g4() -> OptionParser<(bool, Vec<u32>, u32)> {
     let a = short('a').long("alpha").switch();
@@ -543,7 +599,6 @@ pub fn a4() -> OptionParser<(Vec<Flag3>, bool)> {
 // ---------------------------------------------------------------------------------------------
 // byte-exact probes for the text layer (C02): OsString values, so nothing is lost in conversion
 
-use std::ffi::OsString;
 
 /// switch -a, switch with a two-byte short name, OsString argument -b/--beta (optional), OsString positionals
 pub fn pt() -> OptionParser<(bool, bool, Option<OsString>, Vec<OsString>)> {
